@@ -929,7 +929,8 @@ func execDraw(line string) (res h.Result) {
 			sh.w, sh.h = sh.ttyw, sh.ttyh
 			sh.trusted, sh.fresh = true, true
 			epoch++
-			markAllChanged()
+			afterDraw(true)  // the clear of the take-over legitimately wrote every cell in this block …
+			markAllChanged() // … and the next Show repaints every cell (the buffer was re-created)
 			pendingUnlock = map[[2]int]bool{}
 			lockSnap, lockEpoch, lockLead = map[[2]int]emuCell{}, map[[2]int]int{}, map[[2]int]bool{}
 			oracleOnly = "SKIP suspend/resume history: judged by the oracle only (byte-exact correspondence of such histories: engine modes)"
